@@ -2206,7 +2206,7 @@ class Converter:
         """
         pre_func = self.compress_or_standardize if ambiguous else self.compress
         func = partial(pre_func, strict=strict, passthrough=passthrough)  # type:ignore
-        df[column if target_column is None else target_column] = df[column].map(func)
+        df[column if target_column is None else target_column] = _get_cells(df, column).map(func)
 
     def pd_expand(
         self,
@@ -2229,7 +2229,7 @@ class Converter:
         """
         pre_func = self.expand_or_standardize if ambiguous else self.expand
         func = partial(pre_func, strict=strict, passthrough=passthrough)  # type:ignore
-        df[column if target_column is None else target_column] = df[column].map(func)
+        df[column if target_column is None else target_column] = _get_cells(df, column).map(func)
 
     def pd_standardize_prefix(
         self,
@@ -2250,7 +2250,7 @@ class Converter:
             Defaults to false.
         """
         func = partial(self.standardize_prefix, strict=strict, passthrough=passthrough)
-        df[column if target_column is None else target_column] = df[column].map(func)
+        df[column if target_column is None else target_column] = _get_cells(df, column).map(func)
 
     def pd_standardize_curie(
         self,
@@ -2285,7 +2285,7 @@ class Converter:
         >>> converter.pd_standardize_curie(df, column="object_id")
         """
         func = partial(self.standardize_curie, strict=strict, passthrough=passthrough)
-        df[column if target_column is None else target_column] = df[column].map(func)
+        df[column if target_column is None else target_column] = _get_cells(df, column).map(func)
 
     def pd_standardize_uri(
         self,
@@ -2306,7 +2306,7 @@ class Converter:
             Defaults to false.
         """
         func = partial(self.standardize_uri, strict=strict, passthrough=passthrough)
-        df[column if target_column is None else target_column] = df[column].map(func)
+        df[column if target_column is None else target_column] = _get_cells(df, column).map(func)
 
     def file_compress(
         self,
@@ -2448,6 +2448,14 @@ class Converter:
             if any(prefix in prefixes for prefix in record._all_prefixes)
         ]
         return Converter(records)
+
+
+def _get_cells(df: pandas.DataFrame, column: str | int) -> pandas.Series:
+    """Get a column such that mapping it converts its cells, and not unused categories."""
+    series = df[column]
+    if hasattr(series, "cat"):
+        series = series.cat.remove_unused_categories()
+    return series
 
 
 def _eq(a: str, b: str, case_sensitive: bool) -> bool:
